@@ -373,6 +373,17 @@ def run(ck):
     # "all message lengths 0..144": the senders' length gate admits exactly the lengths that can be sent, the maximum included (R05.2)
     from . import c05
     n_v = c05.validate(ck, agg, net.NetNode(ck, "rf24_network", "RF24Network"))
+    # "a frame is its header followed by the unmodified message" on the air: the radio layer loads exactly the bytes it is given when
+    # dynamic payloads are on - also while the network layer has auto-ack switched off for a multicast (R01.1 / R01.2, shared with C01)
+    from . import link, c13
+    from .radio import Radio
+    rd = Radio(ck)
+    link.write_gate(rd, agg)
+    link.write_static(rd, agg)
+    link.write_cmd(rd, agg)
+    # "ceil(n/24) frames such that a receiver reassembles exactly the original": a fragment counts as sent only if the radio said so -
+    # the timed re-send reports the radio's last result (R13.7, shared with C13)
+    c13.standby_rule(ck, agg)
     agg.flush()
     ck.floor("R11.1", "header/frame codec paths", n1, 8)
     ck.floor("R11.10", "frame constructor paths", n_fc, 2)
